@@ -100,6 +100,10 @@ class CylindricalKernel(Kernel):
 
     @angular_weights.setter
     def angular_weights(self, value: Tensor) -> None:
+        self._set_angular_weights(value)
+
+    def _set_angular_weights(self, value: Union[Tensor, float]) -> None:
+        # Used by the angular_weights_prior
         if not torch.is_tensor(value):
             value = torch.tensor(value)
 
